@@ -314,8 +314,16 @@ class BasicContiguousElement
                     return;
                 }
             }
+            // allocate memory first because it might throw
+            auto allocator = memory_.get_allocator();
+            if constexpr (AllocatorTraits::propagate_on_container_copy_assignment::value)
+            {
+                allocator = other.memory_.get_allocator();
+            }
+            StorageType new_memory{other.memory_.size(), allocator};
             destruct();
-            memory_ = other.memory_;
+            memory_.reset(std::move(new_memory));
+            memory_.propagate_on_container_copy_assignment(other.memory_);
             store_and_construct_reference_inplace(other.reference_, other.reference_.size_in_bytes());
         }
     }
